@@ -11,6 +11,8 @@ From Cog Require Import Model.GoSem Model.GoSemSpec08 Model.GoSemSpec01 Model.Go
      Model.Src Model.FrontEnd Model.FrontEndSpec Proofs.FrontEndWitness Proofs.FrontEndFields Proofs.FrontEndAccept Proofs.FrontEndProofs
      Model.FrontEndSpecOA Model.FrontEndSpecCue Model.FrontEndSpecCue2 Model.FrontEndChainSpec Model.FrontEndCue
      Proofs.FrontEndOA Proofs.FrontEndOAWitness Proofs.FrontEndCueProofs Proofs.FrontEndChain Gen.Chains_gen Model.Process.
+From Cog Require Import Model.FrontEndChainSpec2 Model.FrontEndChainSpec3 Model.FrontEndChainSpecX
+     Proofs.FrontEndChain2Sup Proofs.FrontEndChain2Safe Proofs.FrontEndChain3 Proofs.FrontEndChainX.
 Import ListNotations.
 Local Open Scope string_scope.
 
@@ -156,3 +158,56 @@ Theorem end_to_end_hypotheses_satisfiable :
   roundtrip_holds outPlain (src_pkg sPlain) "Root" dPlain = true.
 Proof. exact chain_plain_nonvacuous. Qed.
 Print Assumptions end_to_end_hypotheses_satisfiable.
+
+(* ---- round 3: the end-to-end statement PURELY IN SOURCE TERMS (no hypothesis about the chain's output):
+   src_safe is a decidable walk of the document along the source type excluding exactly the listed round-trip
+   defects (optional empty collections, non-canonical date-times, integers not written as integer literals, floats
+   beyond the digit limit, directly nested arrays/maps of non-scalars); each exclusion has a witness in
+   Proofs/FrontEndChain2Safe.v, lemmas src_safe_needed_... ---- *)
+Theorem src_valid_roundtrip_in_source_terms : forall s tname d,
+  chain_plain s = true -> json_wf d = true -> json_ints_int64 d = true ->
+  str_in tname (map fst (src_defs s)) = true -> src_safe s tname d = true ->
+  src_valid_doc "jsonschema" s tname d = true ->
+  exists out, process chain_go (parse_ctx s) = Ok out /\ roundtrip_holds out (src_pkg s) tname d = true.
+Proof. exact src_valid_roundtrip_source. Qed.
+Print Assumptions src_valid_roundtrip_in_source_terms.
+Theorem src_valid_roundtrip_source_nonvacuous :
+  chain_plain sPlain = true /\ json_wf dPlain = true /\ json_ints_int64 dPlain = true /\
+  str_in "Root" (map fst (src_defs sPlain)) = true /\ src_safe sPlain "Root" dPlain = true /\
+  src_valid_doc "jsonschema" sPlain "Root" dPlain = true.
+Proof. exact src_safe_nonvacuous. Qed.
+Print Assumptions src_valid_roundtrip_source_nonvacuous.
+(* wider fragment: nullable members written `T | null` (DisjunctionWithNullToOptional acts) and string constants;
+   the chain's output is computed explicitly, and source-valid documents round-trip *)
+Theorem chain_go_on_nullable_schemas : forall s, chain_plain3 s = true ->
+  process chain_go (parse_ctx s) = Ok (chain3_out (parse_ctx s)).
+Proof. exact chain_go_plain3_explicit. Qed.
+Print Assumptions chain_go_on_nullable_schemas.
+Theorem src_valid_roundtrip_nullable_members : forall s tname d out,
+  chain_plain3 s = true -> json_wf d = true -> json_ints_int64 d = true ->
+  process chain_go (parse_ctx s) = Ok out -> ctx_supported out = true ->
+  str_in tname (map fst (src_defs s)) = true ->
+  src_valid_doc "jsonschema" s tname d = true ->
+  roundtrip_safeF out (src_pkg s) tname d = true ->
+  roundtrip_holds out (src_pkg s) tname d = true.
+Proof. exact src_valid_roundtrip_plain3. Qed.
+Print Assumptions src_valid_roundtrip_nullable_members.
+(* the same end-to-end statement from OpenAPI and CUE sources *)
+Theorem src_valid_roundtrip_from_openapi : forall s tname d out,
+  chain_plain_oa s = true -> json_wf d = true -> json_ints_int64 d = true ->
+  process chain_go (parse_ctx_oa s) = Ok out -> ctx_supported out = true ->
+  str_in tname (map fst (src_defs s)) = true ->
+  src_valid_doc "openapi" s tname d = true ->
+  roundtrip_safeF out (src_pkg s) tname d = true ->
+  roundtrip_holds out (src_pkg s) tname d = true.
+Proof. exact src_valid_roundtrip_plain_oa. Qed.
+Print Assumptions src_valid_roundtrip_from_openapi.
+Theorem src_valid_roundtrip_from_cue : forall s tname d out,
+  chain_plain_cue s = true -> json_wf d = true ->
+  process chain_go (parse_ctx_cue s) = Ok out -> ctx_supported out = true ->
+  str_in tname (map fst (src_defs s)) = true ->
+  src_valid_doc "cue" s tname d = true ->
+  roundtrip_safeF out (src_pkg s) tname d = true ->
+  roundtrip_holds out (src_pkg s) tname d = true.
+Proof. exact src_valid_roundtrip_plain_cue. Qed.
+Print Assumptions src_valid_roundtrip_from_cue.
